@@ -632,21 +632,30 @@ impl TransportManager {
             .next()
             .ok_or_else(|| Error::TransportNotSupported(address_record.address().clone()))?
         {
-            Protocol::Tcp(_) => match protocol_stack.next() {
+            // The address must end with exactly one `/p2p/<peer id>` component. The transports
+            // verify the remote against the first peer ID of the address while the manager tracks
+            // the dial under the last one, so trailing components must be refused.
+            Protocol::Tcp(_) => match (
+                protocol_stack.next(),
+                protocol_stack.next(),
+                protocol_stack.next(),
+            ) {
                 #[cfg(feature = "websocket")]
-                Some(Protocol::Ws(_)) | Some(Protocol::Wss(_)) => SupportedTransport::WebSocket,
-                Some(Protocol::P2p(_)) => SupportedTransport::Tcp,
+                (Some(Protocol::Ws(_)) | Some(Protocol::Wss(_)), Some(Protocol::P2p(_)), None) =>
+                    SupportedTransport::WebSocket,
+                (Some(Protocol::P2p(_)), None, None) => SupportedTransport::Tcp,
                 _ =>
                     return Err(Error::TransportNotSupported(
                         address_record.address().clone(),
                     )),
             },
             #[cfg(feature = "quic")]
-            Protocol::Udp(_) => match protocol_stack
-                .next()
-                .ok_or_else(|| Error::TransportNotSupported(address_record.address().clone()))?
-            {
-                Protocol::QuicV1 => SupportedTransport::Quic,
+            Protocol::Udp(_) => match (
+                protocol_stack.next(),
+                protocol_stack.next(),
+                protocol_stack.next(),
+            ) {
+                (Some(Protocol::QuicV1), Some(Protocol::P2p(_)), None) => SupportedTransport::Quic,
                 _ => {
                     tracing::debug!(target: LOG_TARGET, address = ?address_record.address(), "expected `quic-v1`");
                     return Err(Error::TransportNotSupported(
